@@ -77,7 +77,7 @@ Fld(n, v) == [kind |-> "field", name |-> n, v |-> v]
 Lst(es) == [kind |-> "lists", entries |-> es]
 DeepDoc == [prim |-> "Int", lay |-> [i \in 1..33 |-> 0]]
 EntryPool == {Fld("f1", N0), Fld("f1", N256), Fld("f1", JStr(KA)), Fld("f2", JStr(KA)), Fld("f2", JArr(<<N255>>)),
-              Fld("f3", JArr(<<N0, N255>>)), Fld("f3", JArr(<<JStr(KA)>>)), Fld("nosuch", N0),
+              Fld("f3", JArr(<<N0, N255>>)), Fld("f3", JArr(<<JStr(KA)>>)), Fld("nosuch", N0), Fld("$x", N0),
               Lst(<<>>), Lst(<<LE(TInt, SetA)>>), Lst(<<LE(TInt, SetA), LE(TIp, SetB)>>), Lst(<<LE(TIp, SetB), LE(TInt, SetA)>>),
               Lst(<<LE(TArr(TBool), SetA)>>), Lst(<<LE(TInt, Missing)>>),
               Lst(<<[type |-> DeepDoc, data |-> SetA]>>), Lst(<<[type |-> [prim |-> "Foo", lay |-> <<>>], data |-> SetA]>>)}
@@ -109,11 +109,11 @@ FreshCtx == LET x == NewCtx(Schs, 1) IN [vals |-> x.vals, lists |-> x.lists]
 DocDec == DecEntries(DocScheme, c.entries, FreshCtx)
 (* what a serde_json::Value tree presents: one entry per key (the last one wins), in key order *)
 KeyOf(e) == IF e.kind = "lists" THEN "$lists" ELSE e.name
-KeyOrder == <<"$lists", "f1", "f2", "f3", "nosuch">>
+KeyOrder == <<"$lists", "$x", "f1", "f2", "f3", "nosuch">>
 LastOf(es, k) == LET I == {i \in 1..Len(es) : KeyOf(es[i]) = k} IN
                  IF I = {} THEN <<>> ELSE <<es[CHOOSE i \in I : \A j \in I : j <= i]>>
 VView(es) == LastOf(es, KeyOrder[1]) \o LastOf(es, KeyOrder[2]) \o LastOf(es, KeyOrder[3])
-             \o LastOf(es, KeyOrder[4]) \o LastOf(es, KeyOrder[5])
+             \o LastOf(es, KeyOrder[4]) \o LastOf(es, KeyOrder[5]) \o LastOf(es, KeyOrder[6])
 VDec == DecEntries(DocScheme, VView(c.entries), FreshCtx)
 DocTheorem == ~IsVal /\ DocDec.ok =>
                 \A i \in 1..3 : IsNil(DocDec.ctx.vals[i]) \/ TypeOf(DocDec.ctx.vals[i]) = DocScheme.fields[i].ty
